@@ -139,6 +139,25 @@ def gen_c02(rnd, n, thorough=False):
                 tags['ops'][shape] = tags['ops'].get(shape, 0) + 1
             _observe(rnd, lines, layout, list(range(k)), now, nwin=2)
         cases.append({'id': 'c02-%d' % c, 'lines': lines, 'tags': tags})
+    # small-scope exhaustive sweep: EVERY subset of the finer slots of one coarser interval known,
+    # for every method and every threshold j/ratio and its float32 neighbours (and 0, 1)
+    for ratio in ([4] if not thorough else [2, 3, 4, 5, 6]):
+        layout = [(1, 2 * ratio), (ratio, 4)]
+        now = 1700000000 - 1700000000 % ratio + ratio - 1          # the last finer slot of a coarser interval
+        base = now - ratio + 1
+        xffs = sorted(set([0, 0x3f800000] + [f32bits(j / ratio) + d for j in range(1, ratio) for d in (-1, 0, 1)]))
+        for m in METHODS:
+            lines, nfile = [], 0
+            for xff in xffs:
+                for mask in range(1, 2 ** ratio):
+                    name = 'f%d' % nfile; nfile += 1
+                    pts = [(base + i, fbits(float(1 + i * 3 + (7 if i == 1 else 0)))) for i in range(ratio) if mask >> i & 1]
+                    lines.append(_create(name, layout, m, xff))
+                    lines.append(_many(name, 0, now, pts))
+                    lines.append("fetch %s 1 %d %d %d" % (name, base - 1, now, now))
+                    lines.append("drop %s" % name)
+            cases.append({'id': 'c02-sweep%d-m%d' % (ratio, m), 'lines': lines,
+                          'tags': {'layout': 'sweep%d' % ratio, 'levels': 2, 'method': m, 'xff': 'all', 'ops': {'exhaustive_subsets': nfile}}})
     return cases
 
 
